@@ -50,6 +50,20 @@ def _shift(x, loff, boff):
     return x
 
 
+def _rename_local(x, old, new):
+    if isinstance(x, dict):
+        out = {}
+        for k, v in x.items():
+            if k in PLACE_KEYS and isinstance(v, list) and v and isinstance(v[0], int) and not isinstance(v[0], bool):
+                out[k] = [new if v[0] == old else v[0]] + [("[_%d]" % new if isinstance(e, str) and e == "[_%d]" % old else e) for e in v[1:]]
+            else:
+                out[k] = _rename_local(v, old, new)
+        return out
+    if isinstance(x, list):
+        return [_rename_local(y, old, new) for y in x]
+    return x
+
+
 def _replace_captures(x, self_local, caps):
     """places `[self_local, '.j', rest..]` -> `[caps[j], rest..]` (coroutine captures)"""
     if isinstance(x, dict):
@@ -132,6 +146,10 @@ class Inliner:
         key = self.fx._alias.get(name, name)
         raw = self.fx._raw.get(key)
         if raw is None or key not in self.new:
+            return None, None
+        # derived / standard-trait impls of a new type (`<Framing as PartialEq>::eq`, Clone, Debug, ..) stay calls: the rules know
+        # them by name, as they know the impls of the baseline's types
+        if re.match(r"^<.* as (std|core)::(cmp|clone|fmt|hash|default|marker)::\w+(<.*>)?>::\w+$", key):
             return None, None
         return key, json.loads(raw)
 
@@ -376,6 +394,11 @@ class Inliner:
             elif bare not in taken:
                 e[0] = bare
         for pl, a in binds:
+            if not is_closure and pl == 1 and rec.get("argc", 0) >= 1 and self._is_self_reborrow(b, a) and crec["locals"][1] == rec["locals"][1]:
+                # a method of the same type called on `self`: the helper's `self` *is* the caller's `self` (`_1`), so that
+                # `*self = ..` / `self.field` written in the helper read exactly as they did before the block was moved out
+                blocks = _rename_local(blocks, loff + 1, 1)
+                continue
             b["stmts"].append({"lhs": [loff + pl], "rv": {"r": "use", "o": a}, "ln": ln, "ex": None, "inl": "arg"})
         rec["blocks"].extend(blocks)
         self._split_return_tails(boff, len(blocks), loff, depth, stack + (key,))
@@ -392,6 +415,29 @@ class Inliner:
                 rec["blocks"][j]["term"] = {"k": "goto", "t": tgt, "ln": rln, "ex": None}
         b["term"] = {"k": "goto", "t": boff, "ln": ln, "ex": t.get("ex"), "inl_call": key}
         self.done.append(key)
+
+    def _is_self_reborrow(self, b, a):
+        """the argument operand is `self` itself or a reborrow `&mut *self` / `&*self` of the caller's first parameter"""
+        p = _op_place(a)
+        for _ in range(4):
+            if p is None:
+                return False
+            base = [x for x in p if x != "*"]
+            if base == [1]:
+                return True
+            if len(base) != 1:
+                return False
+            d = [s_ for s_ in b["stmts"] if s_["lhs"] == [base[0]]]
+            if len(d) != 1:
+                return False
+            rv = d[0]["rv"]
+            if rv["r"] == "ref":
+                p = rv["p"]
+            elif rv["r"] == "use":
+                p = _op_place(rv["o"])
+            else:
+                return False
+        return False
 
     def _arg_name(self, b, a):
         """source name of the caller's variable that the argument operand is, or refers to"""
@@ -565,6 +611,7 @@ class Inliner:
             return walk(blk["stmts"]) or walk({k: v for k, v in blk["term"].items() if k != "f"})
 
         used = {}            # local -> number of leading variants of its chain that a folded switch has consumed
+        refs = {}            # local holding `&x` -> x, for x a local something is known about
 
         def pending():
             return any(used.get(l, 0) < len(ch) for l, ch in facts.items())
@@ -627,10 +674,15 @@ class Inliner:
                     if q is not None and len(q) == 1 and facts.get(q[0]) in (["true"], ["false"]):
                         facts[lhs[0]] = ["false"] if facts[q[0]] == ["true"] else ["true"]
                     continue
+                if rv["r"] == "ref" and len(lhs) == 1 and len(rv.get("p") or []) == 1 and rv["p"][0] in facts:
+                    refs[lhs[0]] = rv["p"][0]
+                    continue
                 if rv["r"] == "use" and len(lhs) == 1:
                     q = _op_place(rv["o"])
                     if q is None:
                         continue
+                    if len(q) == 1 and q[0] in refs:
+                        refs[lhs[0]] = refs[q[0]]
                     if len(q) == 1 and q[0] in facts:
                         facts[lhs[0]] = list(facts[q[0]])
                     elif len(q) == 3 and q[0] in facts and q[1] == "@" + facts[q[0]][0] and q[2] == ".0" and len(facts[q[0]]) >= 2:
@@ -666,6 +718,17 @@ class Inliner:
                 if len(d) == 1:
                     facts.pop(d[0], None)
                     dconst.pop(d[0], None)
+                mq = re.search(r"(?:option::Option|result::Result)(?:<.*>)?::(is_some|is_none|is_ok|is_err)$", nm)
+                if mq and len(t["args"]) == 1 and len(d) == 1:
+                    a = _op_place(t["args"][0])
+                    src = refs.get(a[0]) if a is not None and len(a) == 1 else None
+                    if src is None and a is not None and len(a) == 1 and a[0] in facts:
+                        src = a[0]
+                    if src is not None and facts.get(src):
+                        pos = facts[src][0] in ("Some", "Ok")
+                        want_pos = mq.group(1) in ("is_some", "is_ok")
+                        facts[d[0]] = ["true"] if pos == want_pos else ["false"]
+                        used[src] = max(used.get(src, 0), 1)
                 if re.search(r"Try>?::branch$", nm) and len(t["args"]) == 1:
                     a = _op_place(t["args"][0])
                     if a is not None and len(a) == 1 and a[0] in facts and len(d) == 1:
